@@ -369,9 +369,12 @@ class SgzConverter(SgzReader):
                                 buffer[u*self.chunk_bytes + z*self.unit_bytes:
                                        u*self.chunk_bytes + (z+1)*self.unit_bytes]
                         outfile.write(new_block)
-            self.read_variant_headers()
-            for k, header_array in self.variant_headers.items():
-                outfile.write(header_array.tobytes())
+            # The version number is copied, so lay the footer out as readers of that version expect:
+            # one unmasked array per stored header, each padded to its stride
+            self.read_variant_headers(include_padding=True)
+            for k in self.stored_header_keys:
+                header_bytes = self.variant_headers[k].tobytes()
+                outfile.write(header_bytes + bytes(self.padded_header_entry_length_bytes - len(header_bytes)))
 
 
 class NumpyConverter(object):
